@@ -84,6 +84,30 @@ macro_rules! read_reserve {
     }};
 }
 
+/// reserve_items over `&Option<[T; N]>` when every announced `Some` has the same length N <= 4.
+macro_rules! opt_arr_reserve {
+    ($rp:ident, $vs:ident, $T:ty) => {{
+        let n = $vs.iter().flatten().next().map(|v| v.len()).unwrap_or(0);
+        if !$vs.iter().flatten().all(|v| v.len() == n) || n > 4 {
+            $rp.reserve_items($vs.iter())
+        } else {
+            macro_rules! go {
+                ($N:literal) => {{
+                    let t: Vec<Option<[$T; $N]>> = $vs.iter().map(|o| o.as_ref().map(|v| <[$T; $N]>::try_from(v.as_slice()).unwrap())).collect();
+                    $rp.reserve_items(t.iter())
+                }};
+            }
+            match n {
+                0 => go!(0),
+                1 => go!(1),
+                2 => go!(2),
+                3 => go!(3),
+                _ => go!(4),
+            }
+        }
+    }};
+}
+
 /// An owned vector whose allocation is much larger than its contents (a caller may hand over any
 /// allocation it likes; the library must not let spare capacity change what is stored).
 pub fn roomy<T: Clone>(v: &[T]) -> Vec<T> {
@@ -881,4 +905,13 @@ spec!(
     byref(x): x.as_slice(),
     forms(p, v): [p.push(v.as_slice())],
     reserve(rp, vs): [],
+);
+
+spec!(
+    OptOwnedU8, "OptionRegion<OwnedRegion<u8>>", OptionRegion<OwnedRegion<u8>>,
+    clone: yes, serde: yes, heap: yes, resreg: yes, copy: yes, debug: yes,
+    dense: no, collapse_top: no, presize: yes, plain: yes,
+    byref(x): x,
+    forms(p, v): [p.push(v), p.push(v.clone()), p.push(v.as_deref())],
+    reserve(rp, vs): [rp.reserve_items(vs.iter()), rp.reserve_items(vs.iter().map(|v| v.as_deref())), opt_arr_reserve!(rp, vs, u8)],
 );
